@@ -2607,13 +2607,6 @@ impl Ctx {
                 } else if trace != model {
                     Some(("C12:trace-lines".into(), det("frames of the failed import differ from the import line and its call sites", json!({"impl_trace": trace, "rendered": text}))))
                 } else if koto_text != text {
-                    // F-C12-8 (koto/src/error.rs From<koto_runtime::Error>, CompileError arm): exactly the
-                    // loader error is kept, the frames are dropped
-                    let loader_only = text.split("\n--- ").next().unwrap_or("");
-                    if self.attribute && koto_text == loader_only && self.open.iter().any(|x| x == "F-C12-8") {
-                        *self.known_hits.entry("F-C12-8".into()).or_default() += 1;
-                        return if quiet { Some("C12:koto-api-message".into()) } else { None };
-                    }
                     Some(("C12:koto-api-message".into(), det("the message seen through koto::Koto differs from the runtime error's rendering", json!({"via_vm": text, "via_koto": koto_text}))))
                 } else {
                     None
